@@ -80,12 +80,38 @@ Definition same_len {A B} (a : list A) (b : list B) : bool := Nat.eqb (length a)
 
 Definition fx := all_fixed.
 
+(* Several functions named "init" all have the package scope as parent: which of them the table
+   holds under "init" depends on the iteration order of Defs, which the model cannot know.  For that
+   one name the comparison is: present in both or absent in both, and the observed object is one of
+   the init functions of Defs (what C13_tables_only_package_scope promises). *)
+Definition is_init_name (n : bytes) : bool := bytes_eqb n (bs "init").
+
+Definition some_init (defs : list obj) (id : N) : bool :=
+  existsb (fun d => okind_eqb (o_kind d) KFunc && is_init_name (o_name d) && o_pkg_scope d
+                    && match o_recv d with None => true | Some _ => false end && N.eqb (o_id d) id) defs.
+
+Definition func_entry_ok (defs : list obj) (model : option N) (n : bytes) (observed : option N) : bool :=
+  if is_init_name n then
+    match model, observed with
+    | Some _, Some id => some_init defs id
+    | None, None => true
+    | _, _ => false
+    end
+  else optN_eqb model observed.
+
+Definition funcs_same (defs : list obj) (a b : tbl) : bool :=
+  Nat.eqb (length a) (length b)
+  && forallb (fun kv => func_entry_ok defs (tbl_get (fst kv) a) (fst kv) (Some (snd kv))) b.
+
 Definition model_pkgobs_ok (universe : list pinfo) (k : pkgin) (o : pkgobs) : bool :=
   let t := fill_tables fx (k_defs k) in
   tbl_same (t_types t) (ob_types o)
   && tbl_same (t_consts t) (ob_consts o)
-  && tbl_same (t_funcs t) (ob_funcs o)
-  && forallb (fun q => optN_eqb (lookup (fst (fst q)) (snd (fst q)) t) (snd q)) (ob_lookups o)
+  && funcs_same (k_defs k) (t_funcs t) (ob_funcs o)
+  && forallb (fun q => match fst (fst q) with
+                       | KFunc => func_entry_ok (k_defs k) (lookup KFunc (snd (fst q)) t) (snd (fst q)) (snd q)
+                       | kd => optN_eqb (lookup kd (snd (fst q)) t) (snd q)
+                       end) (ob_lookups o)
   && same_len (k_queries k) (ob_methods o)
   && forallb (fun qo =>
                 let q := fst qo in
